@@ -32,5 +32,6 @@ Qed.
 
 Lemma C08_tie_f_ok :
   (forall value version a, src_EUI_setstate (value, version, a) = setstate_spec value version a) /\
-  (forall i strict, src_IAB_split_iab_mac i strict = omap (fun r => [fst r; snd r]) (split_iab_mac i strict)).
-Proof. split; [exact src_eui_setstate_ok|exact src_split_iab_mac_ok]. Qed.
+  (forall i strict, src_IAB_split_iab_mac i strict = omap (fun r => [fst r; snd r]) (split_iab_mac i strict)) /\
+  (forall ver v, src_EUI_index ver v = v /\ src_EUI_long ver v = v /\ src_EUI_int ver v = v).
+Proof. split; [exact src_eui_setstate_ok|]. split; [exact src_split_iab_mac_ok|]. intros ver v. repeat split. Qed.
